@@ -699,3 +699,35 @@ fn c11_http_stream_cuts_2() {
 fn c11_http_stream_cuts_3() {
     http_stream_cuts(3)
 }
+
+/// fully concrete requests through the real responder at a given log level (symbolic request
+/// bytes make the parser's control state symbolic and are out of reach - measured 1400 s
+/// timeouts; the per-state step lemmas carry the universally quantified part).  Here:
+/// evaluation of the warn! arguments for a target that is not valid UTF-8.
+fn http_concrete(level: log::LevelFilter) {
+    lazy_static::initialize(&HTTP_SMACK);
+    log::set_max_level(level);
+    let ci = ClientInfo::new();
+    let r = repl(b"GET /\xff\xfe HTTP/1.1\r\n\r\n", &ms(), &ci, None);
+    assert!(r.is_some(), "C13: complete request with a non-UTF-8 target not answered");
+    let r2 = repl(b"GET / HTTP/1.1\r\nno colon\r\n\r\n", &ms(), &ci, None);
+    assert!(r2.is_none(), "C13: request with a malformed header line answered");
+    kani::cover!(true, "concrete requests handled");
+}
+
+//# harness: c01_http_nonutf8_warn
+//# props: C01 C13
+//# tier: quick
+//# encodes: proto::http::repl incl. the argument expressions of warn! (log level Warn)
+//# bounds: two concrete requests: "GET /<ff><fe> HTTP/1.1 CRLF CRLF" (target not valid UTF-8) and one with a colon-less header line; log level Warn
+//# stubs: http_init -> real tables; chrono::Utc::now / to_rfc2822 -> fixed; alloc::fmt::format -> fixed text
+//# cover: concrete requests handled
+#[kani::proof]
+#[kani::unwind(40)]
+#[kani::stub(crate::proto::http::http_init, crate::proto::http::verif_http_init_stub)]
+#[kani::stub(chrono::Utc::now, crate::verif_util::utc_now_stub)]
+#[kani::stub(chrono::DateTime::to_rfc2822, rfc2822_stub)]
+#[kani::stub(alloc::fmt::format, crate::verif_util::fmt_format_stub)]
+fn c01_http_nonutf8_warn() {
+    http_concrete(log::LevelFilter::Warn)
+}
